@@ -153,12 +153,17 @@ class C14(Pipeline):
                 po, o = prev["obs"], e["obs"]
                 if e["act"] == "EndBlockAtt":
                     old = {m["id"] for m in po["queue"] + po["queueh"]}
-                    now = {m["id"] for m in o["queue"] + o["queueh"]}
-                    new = [m for m in o["queue"] + o["queueh"] if m["id"] not in old]
-                    due = [m for m in po["queue"] + po["queueh"] if m["id"] not in now and m["kind"] == "slc" and m["retries"] < 2]
-                    retried += len(new)
-                    if len(due) > len(new) and any(m["mev"] for m in due):
-                        mevdropped += 1
+                    retried += sum(1 for m in o["queue"] + o["queueh"] if m["id"] not in old)
+                    # attested MEV-enforcing calls due for a retry while NO snapshot member qualifies on that chain
+                    # (counted on the recorded tables, whatever the code did)
+                    members = [i for i in range(len(po["fee"])) if po["snap"][i]["member"]]
+                    for key, home in (("queue", False), ("queueh", True)):
+                        for m in po[key]:
+                            k = len([v for v in m["ev"] if v - 1 in members])
+                            if m["kind"] == "slc" and m["mev"] and m["retries"] < 2 and k > 0 and 3 * k >= 2 * len(members) and \
+                                    not any((home or po["snap"][i]["acct"]) and (po["feeh"][i] if home else po["fee"][i]) and po["perf"][i]
+                                            and (po["snap"][i]["mevH"] if home else po["snap"][i]["mevT"]) for i in members):
+                                mevdropped += 1
                 if e["act"] == "EndBlock":
                     el = set()
                     for key in ("queue", "queueh"):
@@ -173,7 +178,7 @@ class C14(Pipeline):
         if retried < 100 or mevdropped < 10 or twochain < 8:
             raise vk.Broken("vacuous trace: %d retries enqueued, %d MEV retries dropped for lack of a qualifying validator, "
                             "%d same-block elections of one validator on both chains with different multiplicators" % (retried, mevdropped, twochain))
-        self._retry_stats = {"retries_enqueued": retried, "mev_retries_dropped_no_qualifying_validator": mevdropped,
+        self._retry_stats = {"retries_enqueued": retried, "attested_mev_calls_due_for_retry_while_nobody_qualifies": mevdropped,
                              "same_block_two_chain_elections_with_different_multiplicators": twochain}
         need = {"Assign:assigned": 50, "Estimate:ok": 50, "Estimate:fail": 5, "Deliver:ok": 20, "Query:query": 100}
         for k, n in need.items():
